@@ -1744,6 +1744,21 @@ func (x *Exec) builtin(b *ssa.Builtin, args []Value, c *ssa.CallCommon) Value {
 			}
 			return nil
 		}
+		if s, ok := args[0].(*SliceV); ok {
+			if s != nil {
+				var et types.Type
+				if st, ok := c.Signature().Params().At(0).Type().Underlying().(*types.Slice); ok {
+					et = st.Elem()
+				}
+				es := x.sliceElems(s)
+				for i := range es {
+					if et != nil {
+						es[i] = x.zero(et)
+					}
+				}
+			}
+			return nil
+		}
 	case "recover":
 		return (*IfaceV)(nil)
 	case "min", "max":
